@@ -230,7 +230,7 @@ func runC07(cx *Ctx, r *Report) {
 				// same condition: both under ¬Empty(msg.Deposit)
 				_, g1 := d[0].fact(false, "sdk.Coins.Empty(msg.Deposit)")
 				_, g2 := p.fact(false, "sdk.Coins.Empty(msg.Deposit)")
-				ok = g1 && g2 && hostFrame(d[0].ev.Fr) == hostFrame(p.ev.Fr) && reachesBefore(d[0].ev, p.ev) && persistedAfter(d[0], evs, "service:ServiceBindingKey=0x02")
+				ok = g1 && g2 && reachesBefore(d[0].ev, p.ev) && persistedAfter(d[0], evs, "service:ServiceBindingKey=0x02")
 				if os.Getenv("DEBUG_C07") != "" {
 					fmt.Fprintf(os.Stderr, "deposit %s: g1=%v g2=%v host=%v ordered=%v persisted=%v\n", name, g1, g2, hostFrame(d[0].ev.Fr) == hostFrame(p.ev.Fr), orderedBefore(d[0].ev, p.ev), persistedAfter(d[0], evs, "service:ServiceBindingKey=0x02"))
 				}
